@@ -126,6 +126,24 @@ def best(chain_models, req, p, name):
     return None, True
 
 
+def acceptable(chain_models, req, p, name):
+    """when best() is ambiguous (incomparable provided interfaces tie): the values the statement still allows -- those
+    whose provided interface is not strictly less general than another tied candidate's"""
+    cands = []
+    for ri, m in enumerate(chain_models):
+        for (key, q, n), v in m.adapters.items():
+            if n != name or len(key) != len(req) or not generality(q, p):
+                continue
+            r = rank(ri, key, req)
+            if r is not None:
+                cands.append((r, q, v))
+    if not cands:
+        return [None]
+    rmin = min(c[0] for c in cands)
+    top = [c for c in cands if c[0] == rmin]
+    return [c[2] for c in top if not any(o[1] is not c[1] and c[1].isOrExtends(o[1]) for o in top)]
+
+
 def subscriptions(chain_models, req, p):
     """statement of C07: base registries first, less specific required first, identical keys in subscription
     order.  Returns (list, ambiguous)"""
